@@ -252,3 +252,238 @@ Proof.
   - simpl. apply mem_rev.
   - apply cc_nonempty. apply canon_rev. apply runs_of_canon. apply Hcan.
 Qed.
+
+(** * PART 2 (C10): the interaction-format round trip *)
+
+(** ** 2a. the reader at timeline level: what one pair's rows do to that pair's entry *)
+Fixpoint fold_step (old : option tline) (evs : list (Z * bool)) : option (option tline) :=
+  match evs with
+  | [] => Some old
+  | (s, true) :: r => match merge_tl old s s with None => None | Some new => fold_step new r end
+  | (s, false) :: r =>
+      match old with
+      | None => None
+      | Some ((a, b), _) =>
+          if b <? s then match merge_tl old a (s - 1) with None => None | Some new => fold_step new r end
+          else fold_step old r
+      end
+  end.
+
+Definition olist (o : option tline) : list (Z * Z) := match o with None => [] | Some tl => tl_list tl end.
+
+Lemma omem_olist tau o : omem tau o = mem tau (olist o).
+Proof. destruct o; reflexivity. Qed.
+
+Definition below (old : option tline) (a : Z) : Prop :=
+  match old with Some ((_, b0), _) => b0 + 1 < a | None => True end.
+
+(** a '+' beyond the latest run (or on a fresh pair) opens a one-instant run *)
+Lemma merge_plus_gap old a : ocanon old -> below old a ->
+  merge_tl old a a = Some (Some ((a, a), olist old)).
+Proof.
+  destruct old as [[[a0 b0] older]|]; simpl; intros Hc Hlt.
+  - destruct Hc as (H0 & _). unfold merge_tl.
+    destruct (a <? a0) eqn:E1; [lia|]. destruct (a <? a) eqn:E2; [lia|].
+    destruct (b0 + 1 <? a) eqn:E3; [reflexivity|lia].
+  - unfold merge_tl. destruct (a <? a) eqn:E; [lia|reflexivity].
+Qed.
+
+(** the '-' right after the run (a, a) became (a, b): the run is extended through b *)
+Lemma merge_close a b l : a <= b -> merge_tl (Some ((a, a), l)) a (b + 1 - 1) = Some (Some ((a, b), l)).
+Proof.
+  intros Hab. replace (b + 1 - 1) with b by lia. unfold merge_tl.
+  destruct (a <? a) eqn:E1; [lia|]. destruct (b <? a) eqn:E2; [lia|].
+  destruct (a + 1 <? a) eqn:E3; [lia|]. destruct (a <? b) eqn:E4; [reflexivity|].
+  assert (a = b) by lia. subst. reflexivity.
+Qed.
+
+Lemma fold_shape R evs : Shape R evs -> canon_chrono R -> forall old, ocanon old ->
+  (forall x, In x R -> below old (fst x)) ->
+  exists T, fold_step old evs = Some T /\ ocanon T /\ forall tau, omem tau T = omem tau old || mem tau R.
+Proof.
+  induction 1 as [|a b R evs Hsh IH|a R evs Hsh IH]; intros Hc old Hoc Hlt.
+  - exists old. split; [reflexivity|]. split; [exact Hoc|]. intros tau. simpl. rewrite orb_false_r. reflexivity.
+  - assert (Hab : a <= b) by (simpl in Hc; tauto).
+    pose proof (Hlt (a, b) (or_introl eq_refl)) as Hb. simpl in Hb.
+    assert (Hoc' : ocanon (Some ((a, b), olist old))).
+    { destruct old as [[[a0 b0] older]|]; simpl in *; tauto. }
+    destruct (IH (cc_tail _ _ Hc) (Some ((a, b), olist old)) Hoc') as (T & HT & HcT & HmT).
+    { intros x Hx. simpl. apply (cc_all_gt _ _ _ Hc). exact Hx. }
+    exists T. split; [|split; [exact HcT|]].
+    + cbn [fold_step]. rewrite (merge_plus_gap old a Hoc Hb).
+      assert (E : a <? b + 1 = true) by lia. rewrite E.
+      rewrite (merge_close a b _ Hab). exact HT.
+    + intros tau. rewrite HmT. rewrite (omem_olist tau old).
+      change (omem tau (Some ((a, b), olist old))) with (in_itv tau (a, b) || mem tau (olist old)).
+      change (mem tau ((a, b) :: R)) with (in_itv tau (a, b) || mem tau R).
+      destruct (in_itv tau (a, b)), (mem tau (olist old)), (mem tau R); reflexivity.
+  - pose proof (Hlt (a, a) (or_introl eq_refl)) as Hb. simpl in Hb.
+    assert (Hoc' : ocanon (Some ((a, a), olist old))).
+    { destruct old as [[[a0 b0] older]|]; simpl in *; try tauto; repeat split; try lia; tauto. }
+    destruct (IH (cc_tail _ _ Hc) (Some ((a, a), olist old)) Hoc') as (T & HT & HcT & HmT).
+    { intros x Hx. simpl. apply (cc_all_gt _ _ _ Hc). exact Hx. }
+    exists T. split; [|split; [exact HcT|]].
+    + cbn [fold_step]. rewrite (merge_plus_gap old a Hoc Hb). exact HT.
+    + intros tau. rewrite HmT. rewrite (omem_olist tau old).
+      change (omem tau (Some ((a, a), olist old))) with (in_itv tau (a, a) || mem tau (olist old)).
+      change (mem tau ((a, a) :: R)) with (in_itv tau (a, a) || mem tau R).
+      destruct (in_itv tau (a, a)), (mem tau (olist old)), (mem tau R); reflexivity.
+Qed.
+
+(** ** 2b. the reader at graph level: each row only touches its own pair's entry, as [fold_step] says *)
+Definition pe (S : list event) (k : Z * Z) : list (Z * bool) :=
+  map (fun e => (ev_time e, snd e)) (filter (fun e => peqb (snd (fst e)) k) S).
+Definition rows (S : list event) : list irow :=
+  map (fun e => match e with (t, (u, v), op) => (u, v, op, t) end) S.
+
+Lemma pe_cons t u v op S k :
+  pe ((t, (u, v), op) :: S) k = if peqb (u, v) k then (t, op) :: pe S k else pe S k.
+Proof. unfold pe. simpl. destruct (peqb (u, v) k); reflexivity. Qed.
+
+(** one accepted add on the pair (u, v): the other pairs' folds are untouched *)
+Lemma read_events S : forall H,
+  g_rem H = true ->
+  (forall e, In e S -> nk (g_dir H) (fst (snd (fst e))) (snd (snd (fst e))) = snd (fst e)) ->
+  (forall k, fold_step (aget peqb k (g_edges H)) (pe S k) <> None) ->
+  exists H', parse_interactions_from H (rows S) = RdOk H' /\ g_dir H' = g_dir H /\ g_rem H' = true /\
+             forall k, fold_step (aget peqb k (g_edges H)) (pe S k) = Some (aget peqb k (g_edges H')).
+Proof.
+  induction S as [|[[t [u v]] op] S' IH]; intros H Hrem Hnk Hok.
+  - exists H. simpl. auto.
+  - assert (Hk0 : nk (g_dir H) u v = (u, v)) by (apply (Hnk (t, (u, v), op)); left; reflexivity).
+    change (rows ((t, (u, v), op) :: S')) with ((u, v, op, t) :: rows S').
+    pose proof (Hok (u, v)) as Hok0. rewrite pe_cons, peqb_refl in Hok0.
+    (* the common continuation after an accepted add that rewrites the entry of (u, v) to [new] *)
+    assert (Hcont : forall H1 new,
+      g_dir H1 = g_dir H -> g_rem H1 = true ->
+      (forall k', aget peqb k' (g_edges H1) = if peqb k' (u, v) then new else aget peqb k' (g_edges H)) ->
+      fold_step new (pe S' (u, v)) <> None ->
+      exists H', parse_interactions_from H1 (rows S') = RdOk H' /\ g_dir H' = g_dir H /\ g_rem H' = true /\
+        (forall k, (if peqb (u, v) k then fold_step new (pe S' k) else fold_step (aget peqb k (g_edges H)) (pe S' k))
+                   = Some (aget peqb k (g_edges H')))).
+    { intros H1 new Hd Hr Hget Hnew.
+      destruct (IH H1) as (H' & Hrun & HdH & HrH & Hall).
+      - exact Hr.
+      - intros e He. rewrite Hd. apply Hnk. right; exact He.
+      - intros k. rewrite Hget. rewrite (peqb_sym k (u, v)). destruct (peqb (u, v) k) eqn:Ek.
+        + apply peqb_eq in Ek. subst k. exact Hnew.
+        + specialize (Hok k). rewrite pe_cons, Ek in Hok. exact Hok.
+      - exists H'. split; [exact Hrun|]. split; [congruence|]. split; [exact HrH|].
+        intros k. specialize (Hall k). rewrite Hget in Hall. rewrite (peqb_sym k (u, v)) in Hall.
+        destruct (peqb (u, v) k); exact Hall. }
+    cbn [parse_interactions_from]. destruct op.
+    + (* '+' : a point add *)
+      cbn [fold_step] in Hok0.
+      destruct (add_interaction H u v (Some t) None) as [H1 o] eqn:Hs.
+      pose proof (step_edges _ _ _ _ _ _ _ Hs) as Hst. cbv zeta in Hst. destruct Hst as (Hd & Hr & Hst).
+      rewrite Hk0 in Hst. unfold call_end in Hst.
+      destruct (merge_tl (aget peqb (u, v) (g_edges H)) t t) as [new|] eqn:Hm; [|congruence].
+      destruct Hst as (-> & Hget).
+      destruct (Hcont H1 new Hd (eq_trans Hr Hrem) Hget Hok0) as (H' & Hrun & HdH & HrH & Hall).
+      exists H'. split; [exact Hrun|]. split; [exact HdH|]. split; [exact HrH|].
+      intros k. specialize (Hall k). rewrite pe_cons. destruct (peqb (u, v) k) eqn:Ek; [|exact Hall].
+      apply peqb_eq in Ek. subst k. cbn [fold_step]. rewrite Hm. exact Hall.
+    + (* '-' : an interval add from the start of the latest run, when it reaches beyond that run *)
+      rewrite Hk0.
+      destruct (aget peqb (u, v) (g_edges H)) as [[[a b] older]|] eqn:Hg; [|cbn [fold_step] in Hok0; congruence].
+      cbn [fold_step] in Hok0.
+      destruct (b <? t) eqn:Eb.
+      * destruct (add_interaction H u v (Some a) (Some t)) as [H1 o] eqn:Hs.
+        pose proof (step_edges _ _ _ _ _ _ _ Hs) as Hst. cbv zeta in Hst. destruct Hst as (Hd & Hr & Hst).
+        rewrite Hk0, Hg, Hrem in Hst. unfold call_end in Hst.
+        revert Hst Hok0. destruct (merge_tl _ a (t - 1)) as [new|] eqn:Hm; intros Hst Hok0; [|congruence].
+        destruct Hst as (-> & Hget).
+        destruct (Hcont H1 new Hd (eq_trans Hr Hrem) Hget Hok0) as (H' & Hrun & HdH & HrH & Hall).
+        exists H'. split; [exact Hrun|]. split; [exact HdH|]. split; [exact HrH|].
+        intros k. specialize (Hall k). rewrite pe_cons. destruct (peqb (u, v) k) eqn:Ek; [|exact Hall].
+        apply peqb_eq in Ek. subst k. rewrite Hg. cbn [fold_step]. rewrite Eb, Hm. exact Hall.
+      * destruct (IH H Hrem) as (H' & Hrun & HdH & HrH & Hall).
+        -- intros e He. apply Hnk. right; exact He.
+        -- intros k. destruct (peqb (u, v) k) eqn:Ek.
+           ++ apply peqb_eq in Ek. subst k. rewrite Hg. exact Hok0.
+           ++ specialize (Hok k). rewrite pe_cons, Ek in Hok. exact Hok.
+        -- exists H'. split; [exact Hrun|]. split; [exact HdH|]. split; [exact HrH|].
+           intros k. specialize (Hall k). rewrite pe_cons. destruct (peqb (u, v) k) eqn:Ek; [|exact Hall].
+           apply peqb_eq in Ek. subst k. rewrite Hg in *. cbn [fold_step]. rewrite Eb. exact Hall.
+Qed.
+
+(** ** 2c. the keys of the log are adjacency keys, hence normalised *)
+Lemma event_key_norm g e : InvAdj g -> InvLog g -> In e (g_events g) ->
+  nk (g_dir g) (fst (snd (fst e))) (snd (snd (fst e))) = snd (fst e).
+Proof.
+  intros (_ & _ & _ & Hnorm) (H1 & H2 & _) Hin. destruct e as [[t [a b]] op]. simpl.
+  assert (Hne : aget peqb (a, b) (g_edges g) <> None).
+  { apply has_event_In in Hin. destruct op.
+    - rewrite H1 in Hin. unfold runs_of in Hin. destruct (aget peqb (a, b) (g_edges g)); [discriminate|discriminate Hin].
+    - apply H2 in Hin. unfold runs_of in Hin. destruct (aget peqb (a, b) (g_edges g)); [discriminate|discriminate Hin]. }
+  unfold nk. destruct (g_dir g) eqn:Hd; [reflexivity|].
+  destruct (aget peqb (a, b) (g_edges g)) as [tl|] eqn:Hg; [|congruence].
+  apply aget_Some_in in Hg.
+  assert (Hk : In (a, b) (akeys (g_edges g))) by (unfold akeys; apply in_map_iff; exists ((a, b), tl); auto).
+  pose proof (Hnorm eq_refl a b Hk) as Hle. destruct (a <=? b) eqn:E; [reflexivity|lia].
+Qed.
+
+(** ** 2d. the round trip *)
+(** the graph read back has, for every pair, exactly the presence of the original *)
+Theorem interactions_roundtrip_runs g : GoodG g -> InvLog g -> all_closed g ->
+  exists H, parse_interactions (g_dir g) (gen_interactions g) = RdOk H /\ g_dir H = g_dir g /\ g_rem H = true /\
+            forall k, ocanon (aget peqb k (g_edges H)) /\
+                      forall tau, omem tau (aget peqb k (g_edges H)) = mem tau (runs_of g k).
+Proof.
+  intros (Hrem & Hcan & HA) HL Hcl.
+  assert (Hfold : forall k, exists T, fold_step None (pair_events g k) = Some T /\ ocanon T /\
+                                      forall tau, omem tau T = mem tau (runs_of g k)).
+  { intros k. pose proof (pair_events_shape g k (Hcan k) HL Hcl) as Hsh.
+    destruct (fold_shape _ _ Hsh (canon_rev _ (runs_of_canon g k (Hcan k))) None I) as (T & HT & HcT & HmT).
+    - intros x _. exact I.
+    - exists T. split; [exact HT|]. split; [exact HcT|]. intros tau. rewrite HmT. simpl. apply mem_rev. }
+  destruct (read_events (stream g) (empty_graph (g_dir g) true)) as (H & Hrun & Hd & Hr & Hall).
+  - reflexivity.
+  - intros e He. simpl. apply event_key_norm; [exact HA|exact HL|]. apply stream_In. exact He.
+  - intros k. simpl. destruct (Hfold k) as (T & E & _). change (pe (stream g) k) with (pair_events g k).
+    rewrite E. discriminate.
+  - exists H. split; [exact Hrun|]. split; [exact Hd|]. split; [exact Hr|].
+    intros k. destruct (Hfold k) as (T & E & HcT & HmT). specialize (Hall k). simpl in Hall.
+    change (pe (stream g) k) with (pair_events g k) in Hall. rewrite E in Hall. injection Hall as HT. subst T.
+    split; assumption.
+Qed.
+
+Theorem interactions_roundtrip g : GoodG g -> InvLog g -> all_closed g ->
+  exists H, parse_interactions (g_dir g) (gen_interactions g) = RdOk H /\
+            forall u v tau, has_interaction H u v (Some tau) = has_interaction g u v (Some tau).
+Proof.
+  intros HG HL Hcl. destruct (interactions_roundtrip_runs g HG HL Hcl) as (H & Hrun & Hd & Hr & Hall).
+  destruct HG as (Hrem & Hcan & HA).
+  exists H. split; [exact Hrun|]. intros u v tau.
+  destruct (Hall (nk (g_dir H) u v)) as (HcH & HmH).
+  rewrite (io_hi_omem H u v tau Hr HcH), HmH, Hd.
+  rewrite (io_hi_omem g u v tau Hrem (Hcan _)). unfold runs_of.
+  destruct (aget peqb (nk (g_dir g) u v) (g_edges g)); reflexivity.
+Qed.
+
+(** the read-back graph's presence, stated through the replay of the written stream *)
+Corollary interactions_roundtrip_replay g : GoodG g -> InvLog g -> all_closed g ->
+  exists H, parse_interactions (g_dir g) (gen_interactions g) = RdOk H /\
+            forall u v tau, has_interaction H u v (Some tau) = replay (pair_events g (nk (g_dir g) u v)) None tau.
+Proof.
+  intros HG HL Hcl. destruct (interactions_roundtrip g HG HL Hcl) as (H & Hrun & Hp).
+  exists H. split; [exact Hrun|]. intros u v tau. rewrite Hp.
+  destruct HG as (Hrem & Hcan & HA).
+  rewrite (replay_presence g _ tau Hrem Hcan HL Hcl).
+  rewrite (io_hi_omem g u v tau Hrem (Hcan _)). unfold runs_of.
+  destruct (aget peqb (nk (g_dir g) u v) (g_edges g)); reflexivity.
+Qed.
+
+(** * 3. [all_closed] is needed: the unclosed two-instant run (two point adds at consecutive instants)
+    logs a single '+', so the replay and the read-back graph only know the first instant *)
+Definition g_unclosed : graph :=
+  run_calls (empty_graph false true) [mkCall 1 2 1 None; mkCall 1 2 2 None].
+
+Example replay_unclosed :
+  replay (pair_events g_unclosed (1, 2)) None 2 = false /\ mem 2 (runs_of g_unclosed (1, 2)) = true.
+Proof. vm_compute. split; reflexivity. Qed.
+
+Example roundtrip_unclosed :
+  exists H, parse_interactions false (gen_interactions g_unclosed) = RdOk H /\
+            has_interaction H 1 2 (Some 2) = false /\ has_interaction g_unclosed 1 2 (Some 2) = true.
+Proof. eexists. split; [vm_compute; reflexivity|]. split; vm_compute; reflexivity. Qed.
